@@ -67,6 +67,7 @@ func DefaultOpFeatures(t *tape.Tape) OpFeatures {
 		FragTwice:       t.Bool(1, 2),
 		FragReuse:       t.Bool(1, 2),
 		VarNamedIDRoot:  t.Bool(1, 3),
+		IDWithFragments: t.Bool(1, 2),
 		RootTypename:    t.Bool(1, 3),
 		RootIntrospect:  t.Bool(1, 4),
 		VarInInput:      t.Bool(1, 3),
